@@ -96,8 +96,8 @@ class _State:
         self.conds: List[Tuple[Term, bool, ast.AST]] = []
         self.events: List[Event] = []
         self.assume: Dict[Term, bool] = {}
-        self.attr_store: Dict[Tuple[Term, str], Term] = {}
-        self.attr_ver: Dict[str, int] = {}
+        self.attr_store: Dict[Tuple[Term, str], Tuple[Term, str]] = {}
+        self.attr_ver: Dict[Tuple[str, str], int] = {}
         self.sub_store: Dict[Tuple[Term, Term], Term] = {}
         self.sub_ver: Dict[Term, int] = {}
         self.epoch = 0
@@ -450,41 +450,68 @@ class Evaluator:
             visit(s)
         return names
 
-    def _body_mods(self, stmts: Sequence[ast.stmt]) -> Set[str]:
-        mods: Set[str] = set()
+    def _owner_of(self, value_node: ast.AST, attr: str) -> str:
+        from .callgraph import classes_of
+
+        try:
+            cs = classes_of(self._tenv().type_of(value_node))
+        except Exception:
+            cs = []
+        if not cs:
+            return "?"
+        return self.cg.attr_owner(cs, attr)
+
+    def _body_mods(self, stmts: Sequence[ast.stmt]) -> Set[Tuple[str, str]]:
+        mods: Set[Tuple[str, str]] = set()
+
+        def add(x: ast.AST) -> None:
+            while isinstance(x, ast.Subscript):
+                x = x.value
+            if isinstance(x, ast.Attribute):
+                mods.add((self._owner_of(x.value, x.attr), x.attr))
+
         for s in stmts:
             for n in ast.walk(s):
                 if isinstance(n, (ast.Assign, ast.AugAssign, ast.AnnAssign, ast.Delete)):
                     tgs = n.targets if isinstance(n, (ast.Assign, ast.Delete)) else [n.target]
                     for tg in tgs:
                         for el in ([tg] if not isinstance(tg, (ast.Tuple, ast.List)) else tg.elts):
-                            x = el
-                            while isinstance(x, ast.Subscript):
-                                x = x.value
-                            if isinstance(x, ast.Attribute):
-                                mods.add(x.attr)
+                            add(el)
                 elif isinstance(n, ast.Call):
                     site = self._site(n)
                     for t in site.targets:
                         if site.how != "byname":
                             mods |= self.cg.mod_attrs(t)
                     if isinstance(n.func, ast.Attribute) and n.func.attr in MUTATORS:
-                        x = n.func.value
-                        while isinstance(x, ast.Subscript):
-                            x = x.value
-                        if isinstance(x, ast.Attribute):
-                            mods.add(x.attr)
+                        add(n.func.value)
                     nm = _name_of(n.func) or ""
                     if nm.split(".")[-1] in HEAP_MUTATORS and n.args:
-                        x = n.args[0]
-                        if isinstance(x, ast.Attribute):
-                            mods.add(x.attr)
+                        add(n.args[0])
         return mods
 
-    def _havoc_heap(self, st: _State, mods: Set[str]) -> None:
-        for a in mods:
-            st.attr_ver[a] = st.attr_ver.get(a, 0) + 1
-        st.attr_store = {k: v for k, v in st.attr_store.items() if k[1] not in mods}
+    def _bump(self, st: _State, mods: Iterable[Tuple[str, str]]) -> None:
+        mods = set(mods)
+        if not mods:
+            return
+        for m in mods:
+            st.attr_ver[m] = st.attr_ver.get(m, 0) + 1
+        names_any = {a for o, a in mods if o == "?"}
+        names = {a for _, a in mods}
+        keep = {}
+        for k, (v, o) in st.attr_store.items():
+            a = k[1]
+            if a in names_any or (o, a) in mods or (o == "?" and a in names):
+                continue
+            keep[k] = (v, o)
+        st.attr_store = keep
+
+    def _ver(self, st: _State, owner: str, attr: str) -> int:
+        if owner == "?":
+            return sum(v for (o, a), v in st.attr_ver.items() if a == attr)
+        return st.attr_ver.get((owner, attr), 0) + st.attr_ver.get(("?", attr), 0)
+
+    def _havoc_heap(self, st: _State, mods: Set[Tuple[str, str]]) -> None:
+        self._bump(st, mods)
         st.sub_store = {}
         for b in list(st.sub_ver):
             st.sub_ver[b] += 1
@@ -604,14 +631,37 @@ class Evaluator:
     def _is_local_fresh(self, st: _State, base: Term) -> bool:
         return base in st.fresh or base[0] in ("list", "dict", "set", "tuple")
 
+    def _target_owner(self, node: ast.AST, attr: str) -> str:
+        """Owner class of the attribute written by statement `node` (searching its targets)."""
+        cands: List[ast.AST] = []
+        if isinstance(node, ast.Assign):
+            cands = list(node.targets)
+        elif isinstance(node, (ast.AnnAssign, ast.AugAssign)):
+            cands = [node.target]
+        elif isinstance(node, ast.Delete):
+            cands = list(node.targets)
+        elif isinstance(node, ast.Attribute):
+            cands = [node]
+        owners = set()
+        stack = list(cands)
+        while stack:
+            x = stack.pop()
+            if isinstance(x, (ast.Tuple, ast.List)):
+                stack.extend(x.elts)
+            elif isinstance(x, ast.Attribute) and x.attr == attr:
+                owners.add(self._owner_of(x.value, attr))
+        if len(owners) == 1:
+            return next(iter(owners))
+        return "?"
+
     def _store(self, st: _State, base: Term, idx: Any, v: Term, node: ast.AST, aug: Optional[str] = None, old: Optional[Term] = None) -> None:
         if isinstance(idx, str):
-            cur_ver = st.attr_ver.get(idx, 0)
+            owner = self._target_owner(node, idx)
+            cur_ver = self._ver(st, owner, idx)
             target = ("attr", base, idx)
-            self._emit(st, "store", node, target=target, value=v, aug=aug, old=old, ver=cur_ver, attr=idx, base=base)
-            st.attr_ver[idx] = cur_ver + 1
-            st.attr_store = {k: x for k, x in st.attr_store.items() if k[1] != idx}
-            st.attr_store[(base, idx)] = v
+            self._emit(st, "store", node, target=target, value=v, aug=aug, old=old, ver=cur_ver, attr=idx, base=base, owner=owner)
+            self._bump(st, [(owner, idx)])
+            st.attr_store[(base, idx)] = (v, owner)
             if not self._is_local_fresh(st, base):
                 st.epoch += 1
         else:
@@ -629,38 +679,27 @@ class Evaluator:
             st.sub_store = keep
             st.sub_store[(base, idx)] = v
             st.sub_ver[base] = st.sub_ver.get(base, 0) + 1
-            if base[0] == "attr":
-                a = base[2]
-                # the container attribute's content changed
-                st.attr_store.pop((base[1], a), None)
             if not self._is_local_fresh(st, base):
                 st.epoch += 1
 
     def _delete(self, st: _State, base: Term, idx: Any, node: ast.AST) -> None:
         if isinstance(idx, str):
             self._emit(st, "del", node, target=("attr", base, idx), base=base, attr=idx)
-            st.attr_ver[idx] = st.attr_ver.get(idx, 0) + 1
-            st.attr_store.pop((base, idx), None)
+            self._bump(st, [(self._target_owner(node, idx), idx)])
         else:
             self._emit(st, "del", node, target=("sub", base, idx), base=base, index=idx, attr=None)
             st.sub_store = {k: x for k, x in st.sub_store.items() if k[0] != base}
             st.sub_ver[base] = st.sub_ver.get(base, 0) + 1
-            self._bump_container(st, base)
         if not self._is_local_fresh(st, base):
             st.epoch += 1
 
-    def _bump_container(self, st: _State, base: Term) -> None:
-        """Content of container `base` changed: predicates about it must not be reused."""
-        if base[0] == "sym" or base[0] == "attr":
-            # rename the container so later `k in d` / len(d) terms differ
-            pass
-
     def _read(self, st: _State, base: Term, idx: Any, node: ast.AST) -> Term:
         if isinstance(idx, str):
-            v = st.attr_store.get((base, idx))
-            if v is not None:
-                return v
-            ver = st.attr_ver.get(idx, 0)
+            hit = st.attr_store.get((base, idx))
+            if hit is not None:
+                return hit[0]
+            owner = self._owner_of(node.value, idx) if isinstance(node, ast.Attribute) else "?"
+            ver = self._ver(st, owner, idx)
             return ("attr", base, idx, ver) if ver else ("attr", base, idx)
         v = st.sub_store.get((base, idx))
         if v is not None:
@@ -881,7 +920,9 @@ class Evaluator:
         found: List[FuncInfo] = []
         for c in cs:
             m = self.program.lookup_method(c, e.attr)
-            if m is not None and m.is_property and m not in found:
+            if m is None or not m.is_property:
+                return None  # a plain attribute for at least one possible receiver class
+            if m not in found:
                 found.append(m)
         if len(found) == 1:
             return found[0]
@@ -1020,7 +1061,7 @@ class Evaluator:
                 return self._call_function(st, tgt, recv, args, dict(kws), e)
         # classify purity
         pure = False
-        mods: Set[str] = set()
+        mods: Set[Tuple[str, str]] = set()
         noise = fname in NOISE_CALLS
         if site.targets and site.how != "byname":
             for t in site.targets:
@@ -1046,10 +1087,12 @@ class Evaluator:
                         site=site, pure=pure, name=short, fname=fname, noise=noise)
         # heap effects of the call
         if mods:
-            for a in mods:
-                st.attr_ver[a] = st.attr_ver.get(a, 0) + 1
-            st.attr_store = {k: v for k, v in st.attr_store.items() if k[1] not in mods}
-            st.sub_store = {k: v for k, v in st.sub_store.items() if not (k[0][0] == "attr" and k[0][2] in mods)}
+            self._bump(st, mods)
+            names = {a for _, a in mods}
+            st.sub_store = {k: v for k, v in st.sub_store.items() if not (k[0][0] == "attr" and k[0][2] in names)}
+            for b in list(st.sub_ver):
+                if b[0] == "attr" and b[2] in names:
+                    st.sub_ver[b] += 1
             st.epoch += 1
         elif not pure and not noise:
             mut_base: Optional[Term] = None
@@ -1061,9 +1104,6 @@ class Evaluator:
                 ev.data["mutates"] = mut_base
                 st.sub_store = {k: v for k, v in st.sub_store.items() if k[0] != mut_base}
                 st.sub_ver[mut_base] = st.sub_ver.get(mut_base, 0) + 1
-                if mut_base[0] == "attr":
-                    a = mut_base[2]
-                    st.attr_ver[a] = st.attr_ver.get(a, 0) + 1
                 if not self._is_local_fresh(st, mut_base):
                     st.epoch += 1
             elif site.how in ("unknown", "byname") or (site.targets and self._uses_prng(site)):
